@@ -350,7 +350,9 @@ func (p *Process) waitForStarted() bool {
 			return true
 		default:
 		}
-		return !p.isOneOfStates(types.ProcessStateSkipped, types.ProcessStateError)
+		// ended without ever being released from its own dependencies (skipped,
+		// failed, or stopped while it was still waiting): it won't run
+		return false
 	}
 }
 
